@@ -4,6 +4,7 @@ CONSTANTS
   SdCases = {}
   HlCases = {}
   BtCases = {}
+  NbCases = {}
   CpCases = {}
   MaxOps = 1
   KeepHist = FALSE
